@@ -231,6 +231,13 @@ def check_C02(tier, seed, t0):
     return ir_flow("C02", tier, seed, descs, GEN_NUM, models, COMMON_ASSUME, t0, neg_models=IR_NEG)
 
 
+def check_C03(tier, seed, t0):
+    rng = random.Random(3500 + seed)
+    descs = P.geig_basic(rng, n_of(tier, 140, 2500), types=types_for(tier), nmax=n_of(tier, 28, 80))
+    models = [("MC_IR.tla", "IR_quick.cfg" if tier == "quick" else "IR_design.cfg", 8)]
+    return ir_flow("C03", tier, seed, descs, HERM_NUM, models, COMMON_ASSUME, t0, neg_models=IR_NEG)
+
+
 def check_C07(tier, seed, t0):
     rng = random.Random(4000 + seed)
     descs = P.herm_basic(rng, n_of(tier, 60, 800), types=types_for(tier), meas=2, nmax=n_of(tier, 36, 90))
@@ -311,7 +318,7 @@ def check_C14(tier, seed, t0):
         level="fault_enumeration" if False else "model_checking")
 
 
-CHECKS = {"C06": check_C06, "C14": check_C14, "C18": check_C18, "C19": check_C19, "C05": check_C05, "C01": check_C01, "C02": check_C02, "C07": check_C07, "C13": check_C13}
+CHECKS = {"C03": check_C03, "C06": check_C06, "C14": check_C14, "C18": check_C18, "C19": check_C19, "C05": check_C05, "C01": check_C01, "C02": check_C02, "C07": check_C07, "C13": check_C13}
 
 
 def main():
